@@ -809,6 +809,10 @@ def spellings():
         add('UNICODE-RANGE', t)
     add('UNICODE-RANGE', '\\75+1', 'u+1')
     add('UNICODE-RANGE', '\\55 +1-2', 'U+1-2')
+    # (the white space that ends the escape of the `u` may be a line break INSIDE the token: later positions count from the next line)
+    add('UNICODE-RANGE', '\\75\n+0-7F', 'u+0-7F')
+    add('UNICODE-RANGE', '\\55\r\n+4??', 'U+4??')
+    add('UNICODE-RANGE', '\\000075\f+1', 'u+1')
     # operators, CDO/CDC
     for t, k in (('~=', 'INCLUDES'), ('|=', 'DASHMATCH'), ('^=', 'PREFIXMATCH'), ('$=', 'SUFFIXMATCH'), ('*=', 'SUBSTRINGMATCH'), ('<!--', 'CDO'), ('-->', 'CDC')):
         add(k, t)
